@@ -103,7 +103,7 @@ def meta(tier, seed):
         "oracle": "the call raised => arms unchanged and, after every continuation, subject and pre-call twin give "
                   "identical predict / predict_expectations (or the same exception class); errors raised during "
                   "prediction are compared after aligning generator positions (a prediction may advance the streams)",
-        "bounds": {"stages": STAGES, "invalid_calls": "%d (context-free) / %d (contextual)" % (
+        "bounds": {"stages": STAGES, "invalid_constructor_calls": len(init_catalogue()), "invalid_calls": "%d (context-free) / %d (contextual)" % (
             len(catalogue(True, [1, 2], False)), len(catalogue(False, [1, 2], False))),
             "positions": "the five stages plus every state of the shared BFS up to depth %d" % (2 if tier == "quick" else 3),
             "continuation_depth": 2},
@@ -225,6 +225,77 @@ def judge(cfg, ln, stage, name, cdepth, acc=None, state=None):
     return msgs
 
 
+def init_catalogue():
+    """name -> (function constructing an invalid MAB, the caller-owned argument objects to watch)"""
+    from mabwiser.mab import MAB, LearningPolicy as LP, NeighborhoodPolicy as NP
+    tp = {"max_depth": 2}
+    probs = [0.5, 0.5]
+    arms = [1, 2]
+    dup = [1, 1]
+    none_arms = [1, None]
+    return {
+        "arms_not_list": (lambda: MAB((1, 2), LP.EpsilonGreedy()), []),
+        "arms_duplicate": (lambda: MAB(dup, LP.EpsilonGreedy()), [dup]),
+        "arms_none": (lambda: MAB(none_arms, LP.EpsilonGreedy()), [none_arms]),
+        "arms_nan": (lambda: MAB([1, np.nan], LP.UCB1()), []),
+        "arms_inf": (lambda: MAB([1, np.inf], LP.UCB1()), []),
+        "lp_wrong_type": (lambda: MAB(arms, "EpsilonGreedy"), [arms]),
+        "lp_epsilon_range": (lambda: MAB(arms, LP.EpsilonGreedy(epsilon=2)), [arms]),
+        "lp_alpha_negative": (lambda: MAB(arms, LP.UCB1(alpha=-1)), [arms]),
+        "lp_tau_zero": (lambda: MAB(arms, LP.Softmax(tau=0)), [arms]),
+        "lp_l2_type": (lambda: MAB(arms, LP.LinUCB(l2_lambda="1")), [arms]),
+        "lp_binarizer_not_callable": (lambda: MAB(arms, LP.ThompsonSampling(binarizer=3)), [arms]),
+        "np_wrong_type": (lambda: MAB(arms, LP.UCB1(), "Radius"), [arms]),
+        "np_radius_negative": (lambda: MAB(arms, LP.UCB1(), NP.Radius(radius=-1)), [arms]),
+        "np_radius_probs_sum": (lambda: MAB(arms, LP.UCB1(), NP.Radius(2, no_nhood_prob_of_arm=[0.5, 0.6])), [arms]),
+        "np_k_zero": (lambda: MAB(arms, LP.UCB1(), NP.KNearest(k=0)), [arms]),
+        "np_metric_unknown": (lambda: MAB(arms, LP.UCB1(), NP.KNearest(k=1, metric="nope")), [arms]),
+        "np_clusters_one": (lambda: MAB(arms, LP.UCB1(), NP.Clusters(n_clusters=1)), [arms]),
+        "np_lsh_dimensions": (lambda: MAB(arms, LP.UCB1(), NP.LSHNearest(n_dimensions=0)), [arms]),
+        "tree_bad_parameter": (lambda: MAB(arms, LP.UCB1(), NP.TreeBandit({"no_such_parameter": 1})), [arms]),
+        "tree_incompatible_lp": (lambda: MAB(arms, LP.Softmax(), NP.TreeBandit(tp)), [arms, tp]),
+        "tree_incompatible_lp_default": (lambda: MAB(arms, LP.LinUCB(), NP.TreeBandit()), [arms]),
+        "radius_probs_with_bad_seed": (lambda: MAB(arms, LP.UCB1(), NP.Radius(2, no_nhood_prob_of_arm=probs), seed=1.5), [arms, probs]),
+        "seed_float": (lambda: MAB(arms, LP.UCB1(), seed=1.5), [arms]),
+        "n_jobs_zero": (lambda: MAB(arms, LP.UCB1(), n_jobs=0), [arms]),
+        "n_jobs_float": (lambda: MAB(arms, LP.UCB1(), n_jobs=1.0), [arms]),
+        "backend_not_str": (lambda: MAB(arms, LP.UCB1(), backend=3), [arms]),
+    }
+
+
+def init_part(shard, acc):
+    """Rejected constructors: the arguments, an existing bandit and every bandit built afterwards are unaffected."""
+    ln, nn = shard["ln"], shard["nn"]
+    cfg = A.config(ln, nn, seed=shard["seed"])
+    existing = stage_state(cfg, "fitted")
+    before = canon.digest(existing)
+    fresh_ref = canon.digest(stage_state(cfg, "fitted"))
+    for name, (call, watched) in init_catalogue().items():
+        snaps = [copy.deepcopy(w) for w in watched]
+        ops.COUNTERS["transitions"] += 1
+        try:
+            call()
+        except Exception as e:                                # noqa: BLE001
+            exc = type(e).__name__
+        else:
+            acc.skip("constructor call accepted by the library: %s" % name)
+            continue
+        acc.traces += 1
+        acc.state((ln, nn, "init", name))
+        acc.case((ln, nn, "init", name))
+        acc.outcome([name, exc])
+        msg = None
+        if any(repr(a) != repr(b) for a, b in zip(watched, snaps)):
+            msg = "rejected constructor %s (%s) modified its arguments: %r -> %r" % (name, exc, snaps, watched)
+        elif canon.digest(existing) != before:
+            msg = "rejected constructor %s (%s) changed an existing bandit" % (name, exc)
+        elif canon.digest(stage_state(cfg, "fitted")) != fresh_ref:
+            msg = "a bandit built and trained after the rejected constructor %s (%s) differs from one built before it" % (name, exc)
+        if msg:
+            acc.violation("%s/%s init %s" % (ln, nn, name), {"cfg": cfg, "ln": ln, "stage": "init", "call": name,
+                                                             "cdepth": 0}, msg)
+
+
 def run_shard(shard):
     ln, nn = shard["ln"], shard["nn"]
     cfg = A.config(ln, nn, seed=shard["seed"])
@@ -243,6 +314,8 @@ def run_shard(shard):
             acc.sample({"cfg": cfg, "stage": stage, "invalid_calls": names[:8] + ["..."],
                         "then": "every continuation up to depth %d, then queries" % shard["cdepth"]})
 
+    init_part(shard, acc)
+
     # every position of every valid history up to the BFS depth (shared state-space search)
     def visit(mab, hist, removed):
         if len(mab.arms) < 2:
@@ -258,4 +331,8 @@ def run_shard(shard):
 
 
 def replay(w):
+    if w["stage"] == "init":
+        acc = report.Acc(ID, None, None)
+        init_part({"ln": w["ln"], "nn": [k for k, v in A.NPS.items() if v == w["cfg"]["np"]][0], "seed": w["cfg"]["seed"]}, acc)
+        return [v["message"] for v in acc.violations if w["call"] in v["sig"]]
     return [m for _c, m in judge(w["cfg"], w["ln"], w["stage"], w["call"], w["cdepth"])]
